@@ -184,6 +184,20 @@ def mutator_task(m, present):
             # nothing else changed.  networkx offers two ways: add_node(n, key=x) (creates the node or
             # updates the attributes of an existing one) and nodes[n][key] = x (only for an existing node)
             by_add = len(calls) == 1 and calls[0][1] == "add_node" and calls[0][2] == (n1,) and calls[0][3] == {key: x} and not sets
+            if not by_add and len(calls) == 1 and calls[0][1] == "add_node" and calls[0][2] == (n1,) and not sets:
+                # add_node(n, **attrs) where attrs also carries the node's existing attributes (a marker key,
+                # see ADataDict.pyvc_update_into): writing them back changes nothing; what matters is
+                # whether the given element is written after them (wins) or before (an existing attachment wins)
+                ks = list(calls[0][3].keys())
+                marks = [k_ for k_ in ks if isinstance(k_, tuple) and k_ and k_[0] == "$existing-attributes"]
+                if len(marks) == 1 and sorted(map(str, ks)) == sorted(map(str, [marks[0], key])) and calls[0][3][key] is x:
+                    if ks.index(key) > ks.index(marks[0]):
+                        by_add = True
+                    else:
+                        had = T.fresh(f"node_had_{key}", T.BOOL)
+                        c.oblige("post", f"{m}: the given element replaces an attachment the node already has (here the existing attribute is written back over it)",
+                                 T.not_(had), assume_after=False)
+                        by_add = True
             by_set = not calls and len(sets) == 1 and sets[0][1] is n1 and sets[0][2] == key and sets[0][3] is x
             if in_graph:
                 c.oblige("post", f"{m} on an existing node replaces its attribute {key!r} by the given element and nothing else", T.const(by_add or by_set), assume_after=False)
